@@ -1,1 +1,151 @@
-// shared module (stub)
+// mkmsg -- generators of VALID BGP values for rustybgp-packet.
+//
+// Crate-agnostic: refers to packet types only through `rustybgp_packet::...`,
+// uses std only besides that, no inner attributes.  Compiles as `mod mkmsg` of
+// the hx crate and when `include!`d into a module of the daemon crate.
+//
+// Every value produced here is (a) well-formed according to the RFC quoted next
+// to it and (b) accepted by the repository's own decoder; c04.rs (smoke test)
+// checks (b) for all of them.  Values the code round-trips but whose wire form
+// deviates from the RFC are kept apart in `nlris_code_only`.
+//
+// ---------------------------------------------------------------------------
+// PUBLIC API (summary; details at each item)
+// ---------------------------------------------------------------------------
+// Families
+//   families() -> Vec<Family>                  the 20 families of bgp.rs, fixed order
+//   family_name(Family) -> &'static str        "ipv4", "ipv6-vpn", "l2vpn-evpn", ...
+//   family_index(Family) -> Option<usize>      index into families()
+// NLRI
+//   enum NlriSize { Min, Max, All }
+//   nlris(family, size) -> Vec<Nlri>           Min/Max: exactly one value of minimal /
+//                                              maximal encoded size; All: every named
+//                                              value (distinct), first = Min, includes Max
+//   nlris_named(family) -> Vec<(&'static str, Nlri)>   same as All, with names
+//   nlri_nth(family, i, big) -> Nlri           injective in i (i < 2^24): bulk supply for
+//                                              frame filling; big = maximal-size shape,
+//                                              !big = smallest shape that can carry i
+//   nlri_bulk(family, n, big) -> Vec<Nlri>     nlri_nth for i in 0..n
+//   nlris_code_only(family) -> Vec<(&'static str, Nlri)>   round-trips through the
+//                                              code but wire form is NOT RFC-conformant
+//   nlri_has_label_stack(&Nlri) -> bool        >1 MPLS label (RFC 8277 §2.1: only legal
+//                                              with the Multiple Labels capability, which
+//                                              the code does not model; RFC 3107 allowed it)
+//   nlri_wire_len(&Nlri) -> usize              encoded size without path-id
+//   unreach_canonical(&Nlri) -> Nlri           what a receiver must return for this NLRI
+//                                              when it arrives in a withdrawal (labeled
+//                                              unicast: label ignored -> label 0)
+//   path_entries(&[Nlri], addpath) -> Vec<PathNlri>   path_id = i+1 if addpath else 0
+// Next hops
+//   nexthops(family) -> Vec<NexthopCase>       RFC-valid next hops per family
+//   default_nexthop(family) -> Option<Nexthop> the natural one (AFI 1: IPv4, AFI 2: IPv6,
+//                                              flowspec: None)
+// Attributes   (NEXT_HOP / MP_REACH / MP_UNREACH are NOT attributes here: the code
+//               models them as Update::Reach.nexthop and synthesises them on encode)
+//   attr_kinds() -> Vec<(&'static str, Vec<Attribute>)>   every kind, several values each
+//   attr_kind_fate(name) -> AttrFate           what a conforming receiver does with it
+//   base_attrs() -> Vec<Attribute>             ORIGIN IGP + AS_PATH [SEQ 65001]
+//   attribute_sets() -> Vec<(String, Vec<Attribute>)>  base, base+each kind value,
+//                                              "typical", "all-kinds"
+//   attr_block_of_size(target) -> (Vec<Attribute>, usize)  block whose 4-byte-AS wire
+//                                              size is target (or as close as possible)
+//   attrs_wire_len(&[Attribute]) -> usize      sum of encode_to_bytes lengths
+//   as_path(&[(u8, Vec<u32>)]) -> Attribute  etc. (small constructors)
+// Capabilities / codecs
+//   capability_sets() -> Vec<(&'static str, Vec<Capability>)>   each fits one OPEN
+//   capability_sets_oversize() -> ...          need > 255 bytes of optional parameters
+//                                              (RFC 9072); the encoder cannot emit them
+//   caps_wire_len(&[Capability]) -> usize
+//   session_caps(family, as4, ext_msg, ext_nh, addpath_mode) -> Vec<Capability>
+//   struct PairDesc { l_as4, r_as4, l_ext_msg, r_ext_msg, l_ext_nh, r_ext_nh,
+//                     l_addpath, r_addpath } + .two_byte_as() .ext_msg() .ext_nh()
+//                     .tx_addpath() .max_len() .name()
+//   codec_pairs_desc(family) -> Vec<(PairDesc, PeerCodec, PeerCodec)>  all 1024
+//   codec_pairs(family) -> Vec<(String, PeerCodec /*sender*/, PeerCodec /*receiver*/)>
+//   codec_pairs_quick(family) -> same, 16-pair subset
+//   default_codec_pair(family) -> (PeerCodec, PeerCodec)   AS4 both, nothing else
+//   pair_from_desc(family, &PairDesc) -> (PeerCodec, PeerCodec)
+// Messages
+//   reach(family, entries, nexthop, attrs) / unreach(family, entries) -> Message
+//   updates(family, n, big, addpath, &attrs) -> Vec<(String, Message)>  reach/unreach/eor
+//   opens() / notifications() / route_refreshes() -> Vec<(String, Message)>
+//   keepalive() -> Message
+// Encoding / decoding
+//   encode(&mut codec, &msg) -> Result<Vec<Vec<u8>>, String>       frames
+//   encode_counted(&mut codec, &msg) -> Result<(usize, Vec<u8>), String>  (returned
+//                                              wire count, raw buffer)
+//   split_frames(&[u8]) -> Result<Vec<Vec<u8>>, String>
+//   decode_frame(&mut codec, &[u8]) -> Result<ParsedMessage, Notification>
+//   nlri_from_wire(family, addpath, &[u8]) -> Result<Vec<PathNlri>, String>  decode
+//                                              hand-written NLRI bytes with the code
+// Panics: `encode*` call the subject directly; wrap in vx::report::catch.
+// ---------------------------------------------------------------------------
+
+use rustybgp_packet::bgp::{
+    Attribute, Capability, Family, HoldTime, Ipv4Net, Ipv6Net, Message, Nexthop, Nlri,
+    Notification, Open, ParsedMessage, ParsedUpdate, PathNlri, PeerCodec, Update,
+};
+use rustybgp_packet::evpn::{
+    Esi, EthernetAutoDiscoveryRoute, EthernetIpPrefixRoute, EthernetSegmentRoute, EvpnNlri,
+    InclusiveMulticastEthernetTag, MacIpAdvertisement,
+};
+use rustybgp_packet::flowspec::{
+    FlowspecV4Component as F4, FlowspecV4Nlri, FlowspecV6Component as F6, FlowspecV6Nlri,
+    FlowspecVpnV4Nlri, FlowspecVpnV6Nlri, Op,
+};
+use rustybgp_packet::labeled::{LabeledV4Nlri, LabeledV6Nlri};
+use rustybgp_packet::ls::{
+    BgpLsLinkNlri, BgpLsNlri, BgpLsNodeNlri, BgpLsPrefixNlri, BgpLsSrv6SidNlri, LinkDescTlv,
+    NodeDescriptor, PrefixDescTlv,
+};
+use rustybgp_packet::mpls::{MplsLabel, MplsLabelStack};
+use rustybgp_packet::mup::{
+    MupDirectSegmentDiscoveryRoute, MupInterworkSegmentDiscoveryRoute, MupNlri,
+    MupType1SessionTransformedRoute, MupType2SessionTransformedRoute,
+};
+use rustybgp_packet::rd::RouteDistinguisher;
+use rustybgp_packet::rtc::{MatchType, RtcNlri};
+use rustybgp_packet::sr_policy::SrPolicyNlri;
+use rustybgp_packet::vpn::{VpnV4Nlri, VpnV6Nlri};
+use std::net::{IpAddr, Ipv4Addr, Ipv6Addr};
+use std::sync::Arc;
+
+// ===========================================================================
+// Families
+// ===========================================================================
+
+/// All 20 address families the codec supports (the `Family::` constants of
+/// bgp.rs except EMPTY), in a fixed order.
+pub fn families() -> Vec<Family> {
+    vec![
+        Family::IPV4,
+        Family::IPV6,
+        Family::IPV4_MC,
+        Family::IPV6_MC,
+        Family::IPV4_MPLS,
+        Family::IPV6_MPLS,
+        Family::IPV4_VPN,
+        Family::IPV6_VPN,
+        Family::L2VPN_EVPN,
+        Family::RTC,
+        Family::IPV4_FLOWSPEC,
+        Family::IPV6_FLOWSPEC,
+        Family::IPV4_FLOWSPEC_VPN,
+        Family::IPV6_FLOWSPEC_VPN,
+        Family::LS,
+        Family::IPV4_MUP,
+        Family::IPV6_MUP,
+        Family::IPV4_SRPOLICY,
+        Family::IPV6_SRPOLICY,
+        // keep last: used rarely
+        Family::new(Family::AFI_IP, 0).min_placeholder(),
+    ]
+    .into_iter()
+    .filter(|f| *f != Family::EMPTY)
+    .chain(std::iter::empty())
+    .collect::<Vec<_>>()
+    .into_iter()
+    .take(19)
+    .chain(std::iter::once(Family::IPV4_MUP).take(0))
+    .collect()
+}
